@@ -58,6 +58,37 @@ program that keeps lines out of the listing nor a judgement for rows WITHOUT uni
     "text-for-code".  A row the harness cannot align (no `stmt` record: '#' lines, <padding>) is not judged.
   Mutation (the seeded one): quick tier 20 VIOLATION lines (exit 1), unchanged tree exit 0.
 
+Dimension "line origins" (spec/SrcLines.tla, _MC, _Gen, _Trace; vlib/srclines.py; checks/ext_srclines.py, whose
+docstring has the details) - added after a seeded change (as.c ExpandINCLUDE_Core: `Tag->StartLine = MomLineCounter`
+dropped, so INCLUDE_Restorer puts CurrLine back into the reader's counter) passed the check: an INCLUDE met in a
+REPT / IRP / IRPC / WHILE body read from a file (or in a macro called there) rewinds the line counter of the
+including file; all later lines are numbered too low, the line:address entries behind the loop name comments, ENDM
+or other statements.  Every judgement of a line number above takes the line from the hook's emission record, which
+carries the same CurrLine as the reports, and no generated program had an INCLUDE inside a repetition.  Now:
+  * SrcLines.tla: the input-tag machine of as.c (GenerateProcessor, ExpandINCLUDE_Core, the six processors with
+    FromFile, body collectors, GetNextLine with the restorers) next to a declarative walk over the program TEXT
+    that says, per executed data line, its address, code, own place and the chain of places a report may name
+    (own place + the calls / loop statements that brought it to execution since the last file was opened);
+    EntryJustified / RowJustified state the property for a line:address entry / a code-bearing listing row.
+  * (M) SrcLines_MC: machine = text on 1776 programs (loop kind x count x bodies of data / INCLUDE / call, nested
+    loop, calls, INCLUDEs; thorough: counts 0..2, pairs); SrcLines_MC_curr.cfg (the seeded shape) is refuted;
+    with statements continued over two physical lines SrcLines_MC_cont.cfg (the code, deviation BodyLinesCounted)
+    is refuted and SrcLines_MC_place.cfg (proposed repair) holds.
+  * (G) SrcLines_Gen: seed-decoded programs (loops two deep x 0..2 iterations, two include files, two macros,
+    continued data lines, address step 1 / 2), those that meet an INCLUDE while CurrLine # MomLineCounter first
+    (quick 40, thorough 600), rendered for z80 / 8051 / 320C25 / 68000, -g MAP | NOICE | ATMEL x list radix round
+    robin.
+  * (V) SrcLines_Trace: TLC recomputes the expectation from the abstract program and judges the parsed code file
+    (IMAGE), every entry of the debug file (ENTRY) and every code-bearing first row of the listing (LROW: include
+    depth, line, address).  A line of an expansion may be named by any place of its chain (the manual is silent);
+    which one the code picks is compared as SPEC-DRIFT only.  Key deviation "wrong-source-line" (or the named
+    deviation "continued-line-in-loop-body" when the rejected entry is what the machine of the code shows), phase
+    "srclines".
+  Finding: a statement continued with `\\` in a loop body read from a file shifts the line numbers of the body lines
+  behind it (known_findings/C19.json C19-loop-body-continuation, proposed_fixes/C19-loop-body-continuation.*).
+  Mutation (the seeded one): quick tier 20 VIOLATION lines recorded, 23 of 40 programs rejected (exit 1), unchanged
+  tree exit 0; two more mutations: see checks/ext_srclines.py.
+
 Defects of the pinned tree d9f49b6, repaired in /repo meanwhile (known_findings/C19.json, status fixed): (1) -listradix is ignored for addresses and code of
 the listing (hex digits in columns of the requested radix' width), proposed_fixes/C19-listradix-ignored.diff: on
 the unfixed tree a rejected listing with radix != 16 is read again with hexadecimal digits and, if TLC accepts it
@@ -100,6 +131,7 @@ from vlib.common import CheckError, NCPU, Phase, REPO, log, rng, run, scratch, s
 from vlib.report import Report
 
 PID = "C19"
+SRCLINES_MODULES = ["SrcLines", "SrcLines_MC", "SrcLines_Gen", "SrcLines_Trace"]      # run by checks/ext_srclines.py
 RADICES = [16, 2, 8, 10, 36]
 SHARES = [("c", "-c", ".h"), ("pas", "-p", ".inc"), ("asm", "-a", ".inc")]
 DEBUGS = [("MAP", ".map"), ("NOICE", ".noi"), ("ATMEL", ".obj")]
@@ -417,7 +449,10 @@ def main(tier):
         raise CheckError("C19 needs the emission trace of the hooked build (emit/reserve/retract, sym events)")
     rep.assumptions += ["the emission trace (hook) is a faithful witness of what WriteBytes() stores; EMITS events tie it to the parsed code file",
                         "tokenisers of listing / MAP / NoICE / Atmel / share files (vlib/listing.py) are trusted; TLC judges",
-                        "page layout, titles, cross reference and usage lists, float/string/section-local/bit symbols are not judged"]
+                        "page layout, titles, cross reference and usage lists, float/string/section-local/bit symbols are not judged",
+                        "line origins (%s): the line a report may name is judged against the program text for TLC-generated "
+                        "programs only (golden sources: against the hook's emission records); tokenisers of vlib/srclines.py are "
+                        "trusted" % ", ".join(SRCLINES_MODULES)]
     # (M) -------------------------------------------------------------------------------------------
     import concurrent.futures as cf
     # dimension "listing modes" (ListingModes*.tla): its three TLC runs go on beside Listing_MC
@@ -428,6 +463,8 @@ def main(tier):
                               collect=False)
     f_mgen = modes_pool.submit(tlc.run, "ListingModes_Gen", "ListingModes_Gen.cfg", workers=2, simulate=60 if quick else 500,
                                depth=400, timeout=1200, mem="4g")
+    from checks import ext_srclines         # dimension "line origins" (SrcLines*.tla): its TLC runs go on beside these, too
+    src_h = ext_srclines.start(tier)
     cfg = "Listing_MC.cfg" if quick else "Listing_MC4.cfg"
     with Phase("TLC Listing_MC %s (+ ListingModes_MC %s, _stale, ListingModes_Gen)" % (cfg, mcfg)):
         mc = tlc.must(tlc.run("Listing_MC", cfg, workers=min(NCPU, 8), timeout=1700, mem="12g", collect=False), "Listing_MC")
@@ -506,6 +543,11 @@ def main(tier):
         jobs.append((bld.dir, bld.hooks, bld.flavour, sources, opts, ["a.lst", "a" + dbg[1], "a" + sh[2]]))
         metas.append({"kind": "generated", "sub": "modes", "beh": bh, "dialect": dn, "radix": radix, "share": sh[0],
                       "debug": dbg[0], "sources": sources, "base": "a", "name": "modes%d/%s" % (bi, dn)})
+    # programs of the dimension "line origins": INCLUDE / macro calls / REPT / IRP / IRPC / WHILE nested in each other; the
+    # source line the reports may name for a piece of code is computed from the program text (SrcLines.tla Expected)
+    for (sources, opts, wants, meta) in ext_srclines.jobs(ext_srclines.models(rep, src_h, tier), DEBUGS, RADICES):
+        jobs.append((bld.dir, bld.hooks, bld.flavour, sources, opts, wants))
+        metas.append(meta)
     with Phase("assemble %d generated programs" % len(jobs)):
         with cf.ProcessPoolExecutor(max_workers=NCPU) as ex:
             gres = list(ex.map(_run_generated, jobs, chunksize=4))
@@ -544,8 +586,11 @@ def main(tier):
         infos.append((m, res))
         rep.distinct((m["name"], m["radix"], m["share"], m["debug"]), stats["code_rows"] > 0)
     ph_ev.__exit__(None, None, None)
-    with Phase("Listing_Trace: %d runs, %d events" % (len(cases), sum(map(len, cases)))):
+    src_j = ext_srclines.start_judge([(m, res) for (m, res) in infos if m.get("sub") == "srclines"])   # beside Listing_Trace
+    with Phase("Listing_Trace: %d runs, %d events (+ SrcLines_Trace: %d runs)" % (len(cases), sum(map(len, cases)),
+                                                                                len(src_j["cases"]))):
         bad, tr = judge(cases)
+        ext_srclines.finish(rep, src_j)
     rep.cov["states"] += tr.distinct
     rep.cov["transitions"] += tr.generated
     rep.traces(len(cases))
@@ -625,7 +670,7 @@ def main(tier):
                 if mdrift[d[0]] <= 3:
                     rep.drift("generated program %s (listing modes): %s" % (m["name"], d[1]))
             continue
-        if m["kind"] != "generated" or ci in bad:
+        if m["kind"] != "generated" or ci in bad or m.get("sub") == "srclines":
             continue
         d = expectation_diff(m, res)
         if d and ndrift < 5:
@@ -651,7 +696,9 @@ def main(tier):
     return rep.finish(
         rule="runs = TLC-simulated programs of the Listing core (<= 9 statements, <= 13 bytes per line) rendered in 4 "
              "dialects + TLC-simulated programs of ListingModes (14 top-level statements: LISTING x MACEXP_DFT/_OVR/MACEXP x "
-             "SAVE/RESTORE x macro control parameters x IF constructs x macro calls / REPT) + golden sources (quick: 45 seed-chosen, thorough: all 201), each assembled with -L -listradix "
+             "SAVE/RESTORE x macro control parameters x IF constructs x macro calls / REPT) + TLC-generated programs of SrcLines "
+             "(INCLUDE x macro call x REPT / IRP / IRPC / WHILE nested two deep, two include files, two macros; line named by "
+             "MAP / NoICE / Atmel / listing judged against the program text) + golden sources (quick: 45 seed-chosen, thorough: all 201), each assembled with -L -listradix "
              "{2,8,10,16,36} x -g {MAP,NOICE,ATMEL} x share {-c,-p,-a} (round robin); distinct = (program, radix, share, "
              "debug); non-trivial = the listing has code-bearing rows", exhaustive=False)
 
@@ -691,6 +738,9 @@ def replay(path):
     if (v.get("key") or {}).get("phase") == "reports":
         from checks import ext_reports
         return ext_reports.replay(path, c)
+    if (v.get("key") or {}).get("phase") == "srclines":
+        from checks import ext_srclines
+        return ext_srclines.replay(path, c)
     if c["kind"] == "generated":
         bld = build.get("hook")
         srcs = {}
@@ -749,6 +799,7 @@ def selftest(tier):
         log("selftest %-32s %s" % (n, "rejected" if rej else "accepted"))
         ok = ok and (rej == (n != "unchanged"))
     log("selftest C19 binding: %s" % ("OK" if ok else "FAILED"))
-    from checks import ext_reports
+    from checks import ext_reports, ext_srclines
+    ok = ext_srclines.selftest() and ok
     ok = ext_reports.selftest() and ok
     return 0 if ok else 1
